@@ -114,13 +114,13 @@ CoreOps ==
     \cup {[name |-> nm, c |-> c, form |-> f, w |-> NoWrite] : nm \in {"get_mut", "index_mut"}, c \in Classes, f \in {1}}
     \cup {[name |-> "retain", keep |-> K, w |-> NoWrite] : K \in SUBSET Classes}
     \cup {[name |-> "clear"], [name |-> "drop"]}
-    \cup {[name |-> "drain", n |-> n, end |-> e] : n \in 0..A.len, e \in {"drop", "forget"}}
+    \cup {[name |-> "drain", n |-> n, end |-> e, fin |-> "none", j |-> 0] : n \in 0..A.len, e \in {"drop", "forget"}}
   ELSE
     {[name |-> nm, k |-> ArgK(1, c)] : nm \in {"s_insert", "s_replace"}, c \in Classes}
     \cup {[name |-> nm, c |-> c, form |-> f] : nm \in {"s_contains", "s_get", "s_remove", "s_take"}, c \in Classes, f \in {0, 1}}
     \cup {[name |-> "s_retain", keep |-> K] : K \in SUBSET Classes}
     \cup {[name |-> "s_clear"], [name |-> "s_drop"]}
-    \cup {[name |-> "s_drain", n |-> n, end |-> e] : n \in 0..A.len, e \in {"drop", "forget"}}
+    \cup {[name |-> "s_drain", n |-> n, end |-> e, fin |-> "none", j |-> 0] : n \in 0..A.len, e \in {"drop", "forget"}}
 
 EntryTakesV == {"or_insert", "or_insert_with", "or_insert_with_key", "and_modify", "occ_insert", "vac_insert"}
 EntryMethods == EntryTakesV \cup {"key", "or_default", "occ_key", "occ_get", "occ_get_mut", "occ_into_mut", "occ_remove",
@@ -138,9 +138,9 @@ DisjointOps ==
                \cup (IF Adv THEN {} ELSE {[name |-> "disjoint", ks |-> q, w |-> NoWrite, unchecked |-> TRUE] : q \in {q \in KeySeqs : NoDup(q)}})
   ELSE {}
 CursorOps ==
-  IF IsMap THEN {[name |-> "cursor", kind |-> kd, n |-> n, w |-> NoWrite, end |-> e] :
+  IF IsMap THEN {[name |-> "cursor", kind |-> kd, n |-> n, w |-> NoWrite, end |-> e, fin |-> "none", j |-> 0] :
                     kd \in {"into_iter", "into_keys", "into_values"}, n \in 0..A.len, e \in {"drop", "forget"}}
-  ELSE {[name |-> "s_into_iter", n |-> n, end |-> e] : n \in 0..A.len, e \in {"drop", "forget"}}
+  ELSE {[name |-> "s_into_iter", n |-> n, end |-> e, fin |-> "none", j |-> 0] : n \in 0..A.len, e \in {"drop", "forget"}}
 Item(j, c) == [k |-> ArgK(j, c), v |-> ArgV(j)]
 ItemSeqs == UNION {{[j \in 1..n |-> Item(j, cs[j])] : cs \in [1..n -> Classes]} : n \in 0..MaxItems}
 BulkOps ==
@@ -744,6 +744,25 @@ Next ==
 Spec == Init /\ [][Next]_vars
 
 \* ------------------------------------------------------------- invariants --
+\* The two layers have ONE semantics: whenever a call of the micro model comes back without a
+\* panic of user code (lawful comparisons), the container it leaves behind - which object in which
+\* slot - is exactly what the macro layer (MapOps!Apply, the layer shown to refine Dict) computes
+\* for that call; a container-raised panic is a panic of the macro layer too and leaves the
+\* container as it was.
+M == INSTANCE MapOps
+MacroPre == [i \in 1..Len(L.pre) |-> [c |-> L.pre[i][1], r |-> 0, v |-> 0, kt |-> i, vt |-> IF IsMap THEN i ELSE 0]]
+MacroPost(r) == [i \in 1..Len(r.post) |-> <<r.post[i].kt, r.post[i].c, r.post[i].vt>>]
+MacroPanics(r) ==
+  IF L.op.name \in {"from_iter", "from_array", "s_from_iter", "s_from_array", "s_extend"} THEN r.ret.r = "panic"
+  ELSE IF L.op.name \in {"drain", "s_drain", "cursor", "s_into_iter", "clone"} THEN FALSE     \* (episode records; these never panic by themselves)
+  ELSE r.ret[1] = "panic"
+MicroRefinesMacro ==
+  (pc = "done" /\ ~Adv /\ L.out \in {"ok", "panic"}) =>
+     LET r == M!Apply(MacroPre, Cap, L.op)
+         mine == Survivors(IF L.phase = "gone" THEN Fresh ELSE A) IN
+     IF L.out = "panic" THEN MacroPanics(r) /\ (L.op.name = "s_extend" \/ mine = MacroPost(r))
+     ELSE ~MacroPanics(r) /\ mine = MacroPost(r)
+
 Safe == viol = "none"
 Bounded == A.len <= Cap /\ (HasT => T.len <= Cap)
 IdleWellFormed == pc = "idle" => (WellFormed(A) /\ ~HasT /\ (~Adv => \A i, j \in 1..A.len : A.s[i].c = A.s[j].c => i = j))
